@@ -15,7 +15,7 @@ pub fn run(ctx: &mut Ctx) {
     for case in ctx.cases(1_500, 80_000) {
         let mut rng = ctx.rng(case);
         let uni = Universe::new(&mut rng, 1);
-        let n = rng.range(3, 14);
+        let n = rng.range(3, if ctx.is_quick() { 14 } else { 22 });
         let offers = uni.entries(&mut rng, n, 4);
         let cf = match self_check(&offers) {
             Ok(m) => m,
